@@ -120,6 +120,10 @@ def run(ctx):
     c08_1(ctx)
     c08_dialect(ctx)
     c08_2(ctx)
+    # the block a builder emits contains every spend of every accepted bundle (the block run can only equal the mempool runs if
+    # none is dropped): one running spend list per attempt, shared with C10.2
+    from . import c10
+    c10.c10_accumulator(ctx, R="C08.2")
     c08_triples(ctx)
     c08_3(ctx)
     # builders emit spends in the reverse of bundle order: the cross-spend ephemeral rule must not depend on positions
